@@ -34,10 +34,44 @@ def is_sink(call):
     return bool(SINK_RE.search(call))
 
 
+def call_positions(text):
+    """The property quantifies over calls 'in any position': the same call written directly, inside a user function,
+    inside a closure, and (one-argument functions) passed as a callback to a prelude higher-order method, where the
+    call itself happens in a frame of the built-in prelude."""
+    out = [f"let r = {text}", f"fun vw() {{ {text} }}\nlet r = vw()", f"let vc = fun() {{ {text} }}\nlet r = vc()"]
+    m = re.match(r"^([A-Za-z_][A-Za-z0-9_:]*)\((.*)\)$", text, re.S)
+    if m:
+        fn, args = m.group(1), m.group(2)
+        depth, top_commas = 0, 0
+        in_str = False
+        for ch in args:
+            if ch == '"':
+                in_str = not in_str
+            elif not in_str:
+                if ch in "([{":
+                    depth += 1
+                elif ch in ")]}":
+                    depth -= 1
+                elif ch == "," and depth == 0:
+                    top_commas += 1
+        if args.strip() and top_commas == 0:
+            out.append(f"let r = [{args}].map({fn})")
+    return out
+
+
 def native_sandbox_probe(prelude, text):
+    last = None
+    for body in call_positions(text):
+        last = native_sandbox_probe_one(prelude, body)
+        if last["reproduced"]:
+            return last
+    return last
+
+
+def native_sandbox_probe_one(prelude, body):
     d = tempfile.mkdtemp(prefix="verif-c24-", dir="/var/tmp")
     try:
-        src = (prelude + "\n" if prelude else "") + f"let r = {text}\nprintln(string_repr(r))\n"
+        src = (prelude + "\n" if prelude else "") + f"{body}\nprintln(string_repr(r))\n"
         src = src.replace("/var/tmp/verif-scratch-none/sub/p", os.path.join(d, "target"))
         open(os.path.join(d, "main.gdn"), "w").write(src)
         open(os.path.join(d, "target"), "w").write("VERIF_FILE_CONTENT")
